@@ -155,7 +155,7 @@ def families(tier, seed):
     import random
     rng = random.Random(seed)
     fams = []
-    frames = CORE_FRAMES if tier == 'quick' else ALL_FRAMES
+    frames = CORE_FRAMES if tier == 'quick' else ALL_FRAMES + [B.random_frame_name(rng), B.random_frame_name(rng)]
     perms = [None] if tier == 'quick' else [None] + rng.sample(range(48), 3)
     for fr_name in frames:
         for perm in perms:
